@@ -291,7 +291,8 @@ def linear_grid_axioms(eqs, atoms):
     is the remaining one (the grid is a group under +).  Forward chaining: an instance is generated only when all but at
     most one addend already occur in a grid atom for that precision; the new atom can enable further equations."""
     lin = []
-    for lhs, rhs in eqs:
+    for e in eqs:
+        lhs, rhs = e
         ts = []
         if not (_addends(lhs, 1, ts) and _addends(rhs, -1, ts)):
             continue
@@ -300,7 +301,7 @@ def linear_grid_axioms(eqs, atoms):
             uniq[t.get_id()] = t
         ts = list(uniq.values())
         if 2 <= len(ts) <= 4:
-            lin.append((ts, lhs == rhs))
+            lin.append((ts, None if getattr(e, "asserted", False) else (lhs == rhs)))
     # precisions are often written in several syntactically different but equal ways: eligibility ignores which
     # precision term an atom carries, and an instance is emitted for every distinct precision term (few)
     ps = {}
@@ -323,7 +324,8 @@ def linear_grid_axioms(eqs, atoms):
                     for i in range(len(ts)):
                         others = [grid(ts[j], p) for j in range(len(ts)) if j != i]
                         # the equation may occur under a negation / inside a condition: the instance is conditional on it
-                        out.append(z3.Implies(z3.And(eqn, *others), grid(ts[i], p)))
+                        # (an equation that is itself a hypothesis needs no guard)
+                        out.append(z3.Implies(z3.And(*(([eqn] if eqn is not None else []) + others)), grid(ts[i], p)))
                     for t in missing:
                         na = grid(t, p)
                         atoms[na.get_id()] = na
@@ -352,24 +354,33 @@ def _real_equalities(fs):
     return out
 
 
+class _Eq(tuple):
+    """(lhs, rhs) of a ground real equation; .asserted: it is a top-level conjunct of a hypothesis (it holds), as opposed
+    to occurring under a negation, a disjunction, an implication or inside a condition (it may not hold)"""
+    asserted = False
+
+
 def _real_equalities_raw(fs):
     out = []
     seen = set()
-    stack = list(fs)
+    stack = [(f, True) for f in fs]
     while stack:
-        t = stack.pop()
+        t, top = stack.pop()
         i = t.get_id()
-        if i in seen:
+        if (i, top) in seen:
             continue
-        seen.add(i)
+        seen.add((i, top))
         if z3.is_quantifier(t):
             continue
         if z3.is_app(t):
             if t.decl().kind() == z3.Z3_OP_EQ and t.arg(0).sort() == z3.RealSort() and not _has_var(t):
-                out.append((t.arg(0), t.arg(1)))
+                e = _Eq((t.arg(0), t.arg(1)))
+                e.asserted = top
+                out.append(e)
             else:
                 if t.sort() == z3.BoolSort():
-                    stack.extend(t.children())
+                    keep = top and t.decl().kind() == z3.Z3_OP_AND
+                    stack.extend((c, keep) for c in t.children())
     return out
 
 
